@@ -1,2 +1,91 @@
-import Mutiny.Model.Ring
-def main : IO Unit := IO.println "driver"
+import Driver.Machines
+/-!
+Replay driver.  Reads the traces the Rust harness recorded while running the *real* code under its deterministic
+scheduler and drives the Lean models through the very same schedule, checking at every line that model and code agree:
+
+* `cfg model=<name> k=v …`  — start of a run
+* `call <t> <op> <args…>`   — logical thread `t` starts an operation
+* `pt <t> <tag> <value>`    — thread `t` performs the access following hook point `<tag>` (register value `<value>`)
+* `ret <t> <result…>`       — the operation of `t` returned `<result…>`
+* `obs <key> <values…>`     — something the harness observed on the implementation (drained content, counters, …)
+* anything else (`#…`, `panic …`, `verdict …`) is ignored here (the harness' own oracle deals with it)
+
+Output: one line per run — `run <i> ok steps=<n>` or `run <i> diverge line=<l> <what>`.
+-/
+open Driver
+
+structure RunState where
+  idx     : Nat
+  mach    : Option AnyMachine
+  steps   : Nat
+  bad     : Option String
+
+def finishRun (r : RunState) : IO Unit := do
+  match r.mach with
+  | none => pure ()
+  | some _ =>
+    match r.bad with
+    | none => IO.println s!"run {r.idx} ok steps={r.steps}"
+    | some m => IO.println s!"run {r.idx} diverge {m}"
+
+def parseKVs (toks : List String) : List (String × String) :=
+  toks.filterMap fun t => match t.splitOn "=" with
+    | [k, v] => some (k, v)
+    | _ => none
+
+def handle (r : RunState) (ln : Nat) (toks : List String) : RunState :=
+  match r.bad, r.mach with
+  | some _, _ => r
+  | none, none => r
+  | none, some am =>
+    match toks with
+    | "call" :: t :: op :: args =>
+      match am.call t.toNat! op args with
+      | some am' => { r with mach := some am' }
+      | none => { r with bad := some s!"line={ln} model cannot start `{op}` on thread {t} (state: {am.describe t.toNat!})" }
+    | ["pt", t, tag, v] =>
+      let t := t.toNat!
+      match am.tag t with
+      | none => { r with bad := some s!"line={ln} code is at hook `{tag}` value={v} but model thread {t} is not at a program point (state: {am.describe t})" }
+      | some (mtag, mv) =>
+        if mtag != tag then
+          { r with bad := some s!"line={ln} thread {t}: code at hook `{tag}` value={v}, model at `{mtag}` value={mv}" }
+        else if am.cmpVal tag && mv != v.toNat! then
+          { r with bad := some s!"line={ln} thread {t} hook `{tag}`: code register={v}, model register={mv}" }
+        else { r with mach := some (am.step t), steps := r.steps + 1 }
+    | "ret" :: t :: res =>
+      let t := t.toNat!
+      let got := " ".intercalate res
+      match am.result t with
+      | none => { r with bad := some s!"line={ln} code returned `{got}` on thread {t} but the model's operation is not finished (state: {am.describe t})" }
+      | some mres =>
+        if mres != got then { r with bad := some s!"line={ln} thread {t}: code returned `{got}`, model returns `{mres}`" }
+        else { r with mach := some (am.ack t) }
+    | "obs" :: key :: vals =>
+      let got := " ".intercalate vals
+      match am.observe key with
+      | none => r
+      | some mv => if mv != got then { r with bad := some s!"line={ln} observation `{key}`: code `{got}`, model `{mv}`" } else r
+    | _ => r
+
+partial def loop (h : IO.FS.Stream) (r : RunState) (ln : Nat) : IO Unit := do
+  let line ← h.getLine
+  if line.isEmpty then
+    finishRun r
+    return ()
+  let toks := (line.trimAscii.toString.splitOn " ").filter (· ≠ "")
+  match toks with
+  | "cfg" :: kvs =>
+    finishRun r
+    let kv := parseKVs kvs
+    let m := mkMachine kv
+    let r' : RunState := { idx := r.idx + 1, mach := m, steps := 0,
+                           bad := if m.isNone then some s!"line={ln} unknown model in cfg" else none }
+    -- a run with an unknown model still reports (as a divergence)
+    let r' := if m.isNone then { r' with mach := none } else r'
+    if m.isNone then IO.println s!"run {r'.idx} diverge line={ln} unknown model"
+    loop h r' (ln + 1)
+  | _ => loop h (handle r ln toks) (ln + 1)
+
+def main : IO Unit := do
+  loop (← IO.getStdin) { idx := 0, mach := none, steps := 0, bad := none } 1
